@@ -7,7 +7,7 @@ import vlib
 META = {
     "property_id": "C04",
     "level": "proof",
-    "technique": "Coq theorems over a two-layer executable model of the genum generator (constant collection -> u64/Signed representation -> Value.Less -> any sorted permutation -> ValueDeduplicatedSet -> tables) and of the emitted code (Values, IsValid linear/binary search, String, StringValues, Parse/ParseString/ParseGeneric), for all definitions with pairwise distinct names; tied to the source by a generator farm: random definition files run through the real CLI, compiled, observed, and judged inside Coq against both the specification and the model",
+    "technique": "Coq theorems over a two-layer executable model of the genum generator (constant collection -> u64/Signed representation -> Value.Less -> any sorted permutation -> ValueDeduplicatedSet -> tables) and of the emitted code (Values, IsValid linear/binary search, String, StringValues, Parse/ParseString/ParseGeneric), for all definitions with pairwise distinct names; tied to the source by a generator farm: random definition files run through the real CLI, compiled, observed, and judged inside Coq against both the specification and the model; translator tie: the control skeletons of the value table, Values, StringValues, String, IsValid (threshold and both branches) and Parse<T> (switches, -caseInsensitive fallback, ParseString/ParseGeneric delegation) are regenerated from enumTemplate.gotmpl on each run, shown well-formed by computation (coq/ties/Tie_GEnumSkel.v) and evaluated by the judge",
     "design_ref": "DESIGN.md §4 C04",
     "level_text": "Proof: GEnumProofs.v shows for every definition (any number of constants, blocks and duplicates; pairwise distinct names; values representable in the underlying type; any outcome of Go's unstable sort) that the tables the generator emits make Values() the ascending list of distinct values, IsValid exact (linear and slices.BinarySearch variants), String() the primary name (least non-deprecated name, else least name) or Undefined<T>:<n>, StringValues = String over Values, and Parse* map every name (every case variant with -caseInsensitive) to its value and reject all other strings that are not parsable trait values (Props/C04.v, closed under the global context). The model is tied to the current source by the generator farm: 1-4 enum types per file over every integer underlying type, 1-40 constants (emphasis 14-18), iota/explicit/negative/gap/extreme values, duplicates with and without Deprecated markers, run through the genum CLI built from the current tree, compiled once per batch and observed exhaustively for 8-bit enums.",
     "level_note": "Trusted: Coq 8.16.1 kernel + vm_compute; the hand-written model's fidelity is checked (not proved) by the farm correspondence; go/types constant evaluation (cross-checked against intended values); Go harness; fmt %d; ASCII names only. No axioms.",
@@ -78,23 +78,27 @@ def run(ctx):
     ctx.trusted = gl.TRUSTED_COMMON
     ctx.assumptions = [
         "definitions in the documented shape: constants of one enum type in one file, pairwise distinct names (distinct after lower-casing when -caseInsensitive), values representable in the underlying type",
-        "names are ASCII identifiers (strings.ToLower modelled on ASCII)",
+        "names are ASCII identifiers; input strings range over ASCII, the Latin-1 Supplement and U+0130, U+0178, U+1E9E, U+212A (KELVIN SIGN), U+212B: the model's to_lower is strings.ToLower on this alphabet (code points outside it are assumed unchanged by ToLower, which is false e.g. for Greek or Cyrillic capitals) — under -caseInsensitive `\u212a` is a case variant of the name `K`",
+        "constants named like identifiers the template binds (e, input; text, ok with -caseInsensitive) are refused by the generator (expected outcome: error); trait cells bound to such identifiers are outside the modelled space",
+        "int and uint are 64 bits wide (conversion model conv_int)",
     ]
     ctx.obligations_or_violation()
     if not gl.build_judge(ctx):
         return
+    gl.use_skeletons(ctx)
     quick = ctx.tier == "quick"
     terms, jsons, err = gl.run_batches(ctx, "c04", 40, 10, 150)
     if err:
         ctx.report({"unchecked": "generator farm run against the current tree", "detail": err},
                    {"kind": "harness"}, failing_input=False)
         return
-    bad, nt, err = ctx.judge_cases(gl.HEADER, CASE_TYPE, JUDGE, terms, shard=12 if quick else 40,
+    bad, nt, err = ctx.judge_cases(gl.header_of(ctx), CASE_TYPE, gl.judge_of(ctx, JUDGE), terms, shard=12 if quick else 40,
                                    nontrivial="c04_nontrivial")
     if err:
         ctx.report({"unchecked": "in-kernel evaluation of the correspondence", "detail": err},
                    {"kind": "coq_eval"}, failing_input=False)
         return
+    bad = gl.split_codes(ctx, jsons, bad)
     gl.report_all(ctx, "c04", CASE_TYPE, JUDGE, jsons, bad, features, explain, widen_n=80, shard=12, maxlist=40)
     ntj = [j for j in jsons if nontrivial(j)]
     ctx.cov.update({
